@@ -48,6 +48,12 @@ for m, (kind, e) in methods.items():
         rf = fields(resp)
         if "result" not in rf or "id" not in rf:
             issue(m, "response class", "id,result", sorted(rf))
+        # the response class is the one that belongs to THIS request: its name is the request class's name with Request -> Response
+        # (or <typeName>Response), and it is the class whose module-level definition sits next to the request's
+        cn = getattr(cls, "__name__", "")
+        want = (cn[:-len("Request")] if cn.endswith("Request") else cn) + "Response"
+        if getattr(resp, "__name__", None) != want:
+            issue(m, "response class of the request", want, getattr(resp, "__name__", resp))
     else:
         if resp is not None:
             issue(m, "notification has a response class", None, resp)
@@ -94,6 +100,22 @@ def _defined(k, v):
         return False
     return _typing.get_origin(v) is not None or isinstance(v, _typing.ForwardRef)
 
+
+# after the first converter was created no annotation of a protocol class may still hold an unresolved forward reference, at any depth
+# (Optional / Union / Sequence / Dict / Tuple arguments included)
+def _unresolved(t, depth=0):
+    if isinstance(t, (str, _typing.ForwardRef)):
+        return True
+    if depth > 8 or _typing.get_origin(t) is _typing.Literal:      # the arguments of Literal[...] are values, not types
+        return False
+    return any(_unresolved(a, depth + 1) for a in _typing.get_args(t))
+
+
+for k, v in list(T.ALL_TYPES_MAP.items()):
+    if isinstance(v, type) and attrs.has(v):
+        for a in attrs.fields(v):
+            if _unresolved(a.type):
+                issue("%s.%s" % (k, a.name), "annotation still holds a forward reference after get_converter()", "resolved classes", repr(a.type)[:160])
 
 # the registry is read here AFTER the first converter was created (top of this file) and, in a fresh interpreter, right after import
 for k, v in vars(T).items():
